@@ -12,6 +12,7 @@ arrives as _composite_filters at the inner composite).  Subjects: MemorySource,
 FileSystemSource over a directory written by FileSystemSink, a composite over
 both.  Expected answers: oracle.storemodel (naive evaluation over the population).
 """
+import json
 from hypothesis import strategies as st
 
 from gen import stores as G
@@ -268,6 +269,12 @@ def query_classes(pop, q):
         cl.add("type-filter-repeated")
     if len(idf) > 1:
         cl.add("id-filter-repeated")
+    eq = {}
+    for f in F:
+        if f["op"] == "=" and f["prop"] not in ("type", "id"):
+            eq.setdefault(f["prop"], []).append(json.dumps(f["value"], sort_keys=True))
+    if any(len(set(v)) > 1 for v in eq.values()):
+        cl.add("equalities-on-one-property")        # satisfiable together for list-valued properties and for respelled timestamps
     for f in tf + idf:
         # value shapes the operator is not "meant" for (still evaluated as Python evaluates them)
         if f["op"] in ("=", "!=") and isinstance(f["value"], list):
@@ -319,7 +326,7 @@ def population_and_queries(draw):
 
 REQUIRED_CLASSES = ["op:" + o for o in M.OPS] + ["route:arg", "route:attached", "route:comp", "route:outer", "routes-mixed", "kind:type", "kind:id",
                                                  "kind:str", "kind:int", "kind:bool", "kind:ts", "kind:list", "kind:fan", "dotted-path", "value:datetime",
-                                                 "value:timestamp-text", "type-filter-repeated", "type-and-id-filters", "id-contradicts-type-filter",
+                                                 "value:timestamp-text", "type-filter-repeated", "equalities-on-one-property", "type-and-id-filters", "id-contradicts-type-filter",
                                                  "type-or-id-of-absent-type", "result:empty", "result:proper-subset", "result:everything", "filters:0", "filters:5"]
 
 
